@@ -856,6 +856,71 @@ pub fn layout(u: &mut Un, prep: &Prepared, shuffle: bool, dashdash: bool) -> Lay
     out
 }
 
+/// Deterministic layout: units of each level in the given order, `lead[level]` words before the
+/// units and the rest after them; dash-looking words are written after `--`.
+pub fn layout_fixed(prep: &Prepared, perms: &[Vec<usize>], lead: &[usize]) -> Layout {
+    let mut out = Layout::default();
+    for (li, pl) in prep.levels.iter().enumerate() {
+        let first_dashy = pl.words.iter().position(|w| match &w.kind {
+            LKind::Word(b) => dashy(b),
+            _ => false,
+        });
+        let before = first_dashy.unwrap_or(pl.words.len());
+        let k = lead.get(li).copied().unwrap_or(0).min(before);
+        out.items.extend(pl.words[..k].iter().cloned());
+        let ident: Vec<usize> = (0..pl.units.len()).collect();
+        let perm = perms.get(li).unwrap_or(&ident);
+        for &i in perm {
+            out.items.extend(pl.units[i].items.iter().cloned());
+        }
+        out.items.extend(pl.words[k..before].iter().cloned());
+        if before < pl.words.len() {
+            out.items.push(LItem {
+                kind: LKind::DashDash,
+                level: li,
+                field: usize::MAX,
+                group: None,
+                uid: usize::MAX,
+            });
+            out.items.extend(pl.words[before..].iter().cloned());
+        }
+        if let Some(c) = &pl.cmd {
+            out.items.push(c.clone());
+        }
+    }
+    out
+}
+
+/// all permutations of 0..n that keep the relative order of units feeding the same field
+pub fn admissible_perms(units: &[Unit], limit: usize) -> Vec<Vec<usize>> {
+    fn go(units: &[Unit], cur: &mut Vec<usize>, used: &mut Vec<bool>, out: &mut Vec<Vec<usize>>, limit: usize) {
+        if out.len() >= limit {
+            return;
+        }
+        if cur.len() == units.len() {
+            out.push(cur.clone());
+            return;
+        }
+        for i in 0..units.len() {
+            if used[i] {
+                continue;
+            }
+            // all earlier units of the same field must already be placed
+            if (0..i).any(|j| !used[j] && units[j].field == units[i].field) {
+                continue;
+            }
+            used[i] = true;
+            cur.push(i);
+            go(units, cur, used, out, limit);
+            cur.pop();
+            used[i] = false;
+        }
+    }
+    let mut out = Vec::new();
+    go(units, &mut Vec::new(), &mut vec![false; units.len()], &mut out, limit);
+    out
+}
+
 /// spelling decision for every named occurrence, by uid
 #[derive(Clone, Debug, Default, PartialEq, Eq)]
 pub struct SpellPlan {
@@ -873,6 +938,10 @@ pub struct SpellOpts {
 
 fn spellings(o: &Occ, opts: &SpellOpts, excluded: &mut u64) -> Vec<Spelling> {
     let mut ss = spellings_for_raw(o);
+    if opts.no_hidden_in_cluster.contains(&o.leaf) && ss.contains(&Spelling::Glued) {
+        ss.retain(|s| *s != Spelling::Glued);
+        *excluded += 1;
+    }
     if opts.no_glued_non_utf8 {
         if let Some(v) = &o.value {
             if std::str::from_utf8(v).is_err() && ss.contains(&Spelling::Glued) {
